@@ -101,9 +101,10 @@ def run(prop: str, tier: str, replay: str = None) -> int:
                 case_by_id[c["id"]] = c
         judge(rep, prop, verdicts, case_by_id)
         what = ("(ABI, clobber subset, clobbers_flags, align_stack, preserve_caller_saved, "
-                "scratch count, reads, leaf)" if prop == "C16" else
+                "scratch count, reads, leaf, spelling of the register names)" if prop == "C16" else
                 "(ABI, argument list by count/kind/value class, calling convention, "
-                "constraint overrides, leaf)")
+                "constraint overrides, leaf; histories: ONE CallPatch object at 2-3 insertion sites, "
+                "directly and through a real RewritingContext, with context dependent callables)")
         rep.rule = (f"cases = every configuration {what} enumerated by TLC from "
                     f"spec/{GEN[prop]['spec']} ({GEN[prop].get(tier, '')}), each replayed into the real "
                     "library; every case is replayed on the machine from every start alignment; "
